@@ -168,6 +168,8 @@ class Documentable:
         lineno, doc = astutils.extract_docstring(node)
         self.docstring = doc
         self.docstring_lineno = lineno
+        # What was parsed before for this object (a field of the docstring of its parent) is superseded
+        self.parsed_docstring = None
 
     def setLineNumber(self, lineno: LineFromDocstringField | LineFromAst | int) -> None:
         """
